@@ -11,6 +11,7 @@ import cassandra.query  # noqa: F401
 from spec import proto
 from vlib.harness import hyp_part
 
+THOROUGH_SCALE = 2.0
 PID = "C03"
 TITLE = "Request frames conform to the native protocol specification"
 LEVEL = "exploration"
